@@ -808,7 +808,13 @@ struct CaseRunner {
     ops: Vec<String>,
     outs: Vec<String>,
 }
-const MAX_RESTARTS: usize = 4096;
+/// restarts allowed per unrealised race poll: 40 * 2^(race polls in the case so far) — every race of the
+/// case must come out right in the same re-run, each with probability 1/2 under the unbiased `select!`
+const RESTARTS_PER_RACE: usize = 40;
+/// after this many polls whose requested arm the real code never took, stop searching (the real
+/// `select!` is evidently not choosing freely any more) and report them at once
+const MAX_UNREALISED: usize = 12;
+static UNREALISED: std::sync::atomic::AtomicUsize = std::sync::atomic::AtomicUsize::new(0);
 
 impl CaseRunner {
     fn new() -> Self {
@@ -826,7 +832,14 @@ impl CaseRunner {
         out
     }
     fn realise(&mut self, op: &str) -> String {
-        for _ in 0..MAX_RESTARTS {
+        // upper bound on the race polls of the case so far (each must come out right in the same re-run)
+        let races = 1 + self
+            .ops
+            .iter()
+            .filter(|o| o.as_str() == "idle" || (o.starts_with("poll") && o.split_whitespace().count() == 3))
+            .count();
+        let budget = if UNREALISED.load(SeqCst) >= MAX_UNREALISED { 0 } else { RESTARTS_PER_RACE << races.min(8) };
+        for _ in 0..budget {
             self.live.teardown();
             self.live = Live::new();
             let mut outs2 = Vec::with_capacity(self.ops.len() + 1);
@@ -848,6 +861,13 @@ impl CaseRunner {
                 }
                 return last;
             }
+        }
+        UNREALISED.fetch_add(1, SeqCst);
+        // leave a live state behind that at least has the same shape (the wrong arm ran)
+        self.live.teardown();
+        self.live = Live::new();
+        for o in self.ops.iter().map(|s| s.as_str()).chain(std::iter::once(op)) {
+            let _ = catch_unwind(AssertUnwindSafe(|| self.live.apply(o)));
         }
         "race-unrealised ## fail race-unrealised".into()
     }
